@@ -6,6 +6,10 @@
 //	reset <c|s> <cfgBidi> <cfgUni> <grantBidi> <grantUni>   Config.Max{Bidi,Uni}RemoteStreams, the peer's
 //	                                                        initial_max_streams_{bidi,uni}; handshake done
 //	popen <b|u> <num> <fin>      peer sends a STREAM frame for its stream <num> (implicitly opens lower ones)
+//	pframe <b|u> <num> <kind>    peer references its stream <num> with another frame that carries a stream id:
+//	                             sdb STREAM_DATA_BLOCKED, reset RESET_STREAM, stop STOP_SENDING, msd MAX_STREAM_DATA
+//	                             (stop/msd only for bidirectional streams). RFC 9000 4.6: ANY frame with a stream id
+//	                             exceeding the limit must be answered with STREAM_LIMIT_ERROR
 //	pclose <k>                   the application closes the k-th accepted peer stream, the peer finishes its
 //	                             side (FIN) and acknowledges everything: the stream is completely closed
 //	nstream <b|u>                application: NewStream / NewSendOnlyStream with an expired context
@@ -97,7 +101,16 @@ func c21wGen(r *vu.Rng, i int) []string {
 			if num < 0 {
 				num = 0
 			}
-			ops = append(ops, fmt.Sprintf("popen %s %d %d", tn[t], num, r.Intn(2)))
+			if r.Chance(1, 4) {
+				kinds := []string{"sdb", "reset", "sdb", "stop", "msd"}
+				kind := kinds[r.Intn(3)]
+				if t == 0 {
+					kind = kinds[r.Intn(5)]
+				}
+				ops = append(ops, fmt.Sprintf("pframe %s %d %s", tn[t], num, kind))
+			} else {
+				ops = append(ops, fmt.Sprintf("popen %s %d %d", tn[t], num, r.Intn(2)))
+			}
 			if num < sim[t].max && num >= sim[t].opened {
 				accepted += 1
 				sim[t].opened = num + 1
@@ -330,7 +343,8 @@ func (x *c21wCase) step(op string) string {
 	ctx, cancel := context.WithCancel(context.Background())
 	cancel()
 	switch {
-	case t[0] == "popen" && len(t) == 4 && (t[3] == "0" || t[3] == "1"):
+	case (t[0] == "popen" && len(t) == 4 && (t[3] == "0" || t[3] == "1")) ||
+		(t[0] == "pframe" && len(t) == 4 && (t[3] == "sdb" || t[3] == "reset" || ((t[3] == "stop" || t[3] == "msd") && t[1] == "b"))):
 		st, ti, ok := c21wType(t[1])
 		num := vu.Atoi64(t[2])
 		if !ok || num < 0 || num >= 1<<60 {
@@ -338,10 +352,27 @@ func (x *c21wCase) step(op string) string {
 		}
 		id := newStreamID(x.peer, st, num)
 		advBefore := x.adv[ti]
-		x.tc.writeFrames(packetType1RTT, debugFrameStream{id: id, fin: t[3] == "1"})
-		if t[3] == "1" {
-			x.finned[id] = true
+		switch t[3] {
+		case "0", "1":
+			x.tc.writeFrames(packetType1RTT, debugFrameStream{id: id, fin: t[3] == "1"})
+			if t[3] == "1" {
+				x.finned[id] = true
+			}
+		case "sdb":
+			x.tc.writeFrames(packetType1RTT, debugFrameStreamDataBlocked{id: id, max: 0})
+		case "reset":
+			if x.finned[id] {
+				x.obs = append(x.obs, "-") // the peer already finished this stream with FIN
+				return op + " => -"
+			}
+			x.tc.writeFrames(packetType1RTT, debugFrameResetStream{id: id, code: 1, finalSize: 0})
+			x.finned[id] = true // the peer's direction is finished
+		case "stop":
+			x.tc.writeFrames(packetType1RTT, debugFrameStopSending{id: id, code: 1})
+		case "msd":
+			x.tc.writeFrames(packetType1RTT, debugFrameMaxStreamData{id: id, max: 1 << 20})
 		}
+		x.o.Stat("wire:peer-frame-" + t[3])
 		x.drain()
 		limitErr := false
 		for _, o := range x.obs {
@@ -351,7 +382,7 @@ func (x *c21wCase) step(op string) string {
 		}
 		// ---- oracle: STREAM_LIMIT_ERROR iff the stream number is at or beyond the limit the peer was told
 		if limitErr != (num >= advBefore) {
-			x.o.Fail("", fmt.Sprintf("peer opened %s stream %d with advertised MAX_STREAMS=%d: STREAM_LIMIT_ERROR=%v", t[1], num, advBefore, limitErr))
+			x.o.Fail("", fmt.Sprintf("peer referenced %s stream %d (%s) with advertised MAX_STREAMS=%d: STREAM_LIMIT_ERROR=%v", t[1], num, op, advBefore, limitErr))
 		}
 		if limitErr {
 			x.o.Stat("wire:stream-limit-error")
